@@ -49,6 +49,9 @@ def stepC05 (toks : List String) : Option String :=
     pure (showNats ((UniqIter.uniqValues J (UniqIter.run 2 J l)).mergeSort))
   | ["u_hpx", d, i] => do let d ← d.toNat?; let i ← i.toNat?; pure (toString (uniqHpx d i))
   | ["u_fromhpx", u] => do let u ← u.toNat?; let c := fromUniqHpx u; pure s!"{c.1}/{c.2}"
+  | ["u_tohpx", w, urs] => do
+    let w ← w.toNat?; let urs ← parseRngs urs
+    pure (showRngs (UniqIter.uniqToHpx w urs))
   | ["u_hpxrange", w, u] => do
     let w ← w.toNat?; let u ← u.toNat?
     pure (showRngs [rangeOfCell Params.hpx w (fromUniqHpx u)])
